@@ -544,10 +544,14 @@ package controller
 // a taint pass is entered only from the two lower bands, with the band's rate; the do-nothing branch only
 // when no band asks for anything; a scale-up only with a delta >= 1, which is 1 when only an exception
 // (scale_on_starve, max_node_age) asked for it. C05: above the threshold the delta is the computed one.
-//@   assert @ScaleDown#1 [C06] maxPercent == max(cpuPercent, memPercent)
+// C13: what is divided is the request total over the group's pods and the allocatable total over the untainted nodes
+//@   assert @calcPercentUsage#1 [C13] milli(#arg0) == k8s.sumPodCPU(pods, len(pods)) && milli(#arg1) == 1000 * k8s.sumPodMem(pods, len(pods))
+//@   assert @calcPercentUsage#1 [C13] milli(#arg2) == k8s.sumAllocCPU(untaintedNodes, len(untaintedNodes)) && milli(#arg3) == 1000 * k8s.sumAllocMem(untaintedNodes, len(untaintedNodes)) && #arg4 == len(untaintedNodes)
+//@   assert @ScaleDown#1 [C06,C13] maxPercent == max(cpuPercent, memPercent)
 //@   assert @ScaleDown#1 [C06] scaleOptions.nodesDelta == 0 - nodesDelta
 //@   assert @ScaleDown#1 [C06] nodesDelta < 0
 //@   assert @ScaleDown#1 [C06] (maxPercent < real(nodeGroup.Opts.TaintLowerCapacityThresholdPercent) && scaleOptions.nodesDelta == nodeGroup.Opts.FastNodeRemovalRate) || (maxPercent >= real(nodeGroup.Opts.TaintLowerCapacityThresholdPercent) && maxPercent < real(nodeGroup.Opts.TaintUpperCapacityThresholdPercent) && scaleOptions.nodesDelta == nodeGroup.Opts.SlowNodeRemovalRate)
+//@   assert @ScaleUp#2 [C13] maxPercent == max(cpuPercent, memPercent)
 //@   assert @ScaleUp#2 [C06] maxPercent == max(cpuPercent, memPercent) && scaleOptions.nodesDelta == nodesDelta && nodesDelta >= 1 && (maxPercent <= real(nodeGroup.Opts.ScaleUpThresholdPercent) ==> nodesDelta == 1)
 //@   assert @ScaleUp#2 [C05] maxPercent > real(nodeGroup.Opts.ScaleUpThresholdPercent) && cpuPercent != MAXF && memPercent != MAXF ==> scaleUpD(len(untaintedNodes), cpuPercent, memPercent, nodeGroup.Opts.ScaleUpThresholdPercent) <= nodesDelta && nodesDelta <= max(1, scaleUpD(len(untaintedNodes), cpuPercent, memPercent, nodeGroup.Opts.ScaleUpThresholdPercent))
 //@   assert @TryRemoveTaintedNodes#1 [C06] maxPercent == max(cpuPercent, memPercent) && nodesDelta == 0 && (maxPercent < real(nodeGroup.Opts.TaintLowerCapacityThresholdPercent) ==> nodeGroup.Opts.FastNodeRemovalRate == 0) && (maxPercent >= real(nodeGroup.Opts.TaintLowerCapacityThresholdPercent) && maxPercent < real(nodeGroup.Opts.TaintUpperCapacityThresholdPercent) ==> nodeGroup.Opts.SlowNodeRemovalRate == 0)
